@@ -48,7 +48,7 @@ def _freeze(v):
     if isinstance(v, dict):
         return tuple(sorted((repr(k), _freeze(x)) for k, x in v.items()))
     if isinstance(v, (list, tuple)) or type(v).__name__ in ("deque",):
-        return tuple(_freeze(x) for x in v)
+        return (getattr(v, "maxlen", None),) + tuple(_freeze(x) for x in v)    # the bound is part of the state identity
     if isinstance(v, (set, frozenset)):
         return tuple(sorted(repr(x) for x in v))
     if isinstance(v, (int, float, str, bytes, bool, type(None))):
